@@ -374,7 +374,7 @@ def run_engine(ctx, profile, n, steps):
         return ctx[key]
     d = os.path.join(ctx["work"], "engine_" + profile)
     rc, out = harness(["engine", "-seed", str(ctx["seed"]), "-n", str(n), "-steps", str(steps), "-profile", profile,
-                       "-out", d, "-workers", "16", "-per-file", "4"], timeout=3000)
+                       "-out", d, "-workers", "16", "-per-file", "4"] + (["-monitor", "prune"] if profile == "prune" else []), timeout=3000)
     if rc != 0:
         raise RuntimeError(out[-3000:])
     stats = json.load(open(os.path.join(d, "stats.json")))
@@ -385,6 +385,11 @@ def run_engine(ctx, profile, n, steps):
         if rc != 0:
             evalfail.append((os.path.basename(f), out[-1500:]))
             continue
+        for m in re.finditer(r"v(\d+) =\s*(\[.*?\])\s*:\s*list", out, re.S):
+            hi = int(m.group(1))
+            for si in re.findall(r"(\d+)%nat", m.group(2)):
+                st = hist[hi]["steps"][int(si)]
+                mism.append(dict(h=hi, s=int(si), kind="Job:" + st["op"]["Job"], mm="[MNote \"prune-visible\"]", file=f))
         for m in re.finditer(r"r(\d+) =\s*(\[.*?\])\s*:\s*list", out, re.S):
             hi, body = int(m.group(1)), m.group(2)
             for sm in MM.finditer(body):
@@ -446,6 +451,67 @@ def _extract_case(f, hi):
 def kinds(*ks):
     ks = set(ks)
     return lambda kind, mm: kind in ks or kind.split(":")[0] in ks
+
+
+def part_c15_meta(ctx):
+    """paired histories with / without spliced prune jobs on the real code + convergence rounds;
+    run B is also checked step by step against the model and by the prune monitor"""
+    p = Part("metamorphic-splicing")
+    d = os.path.join(ctx["work"], "c15")
+    n = 16 if QUICK(ctx) else 320
+    rc, out = harness(["c15", "-seed", str(ctx["seed"]), "-n", str(n), "-steps", "45", "-out", d, "-workers", "16", "-per-file", "2"], timeout=3000)
+    if rc != 0:
+        p.violation("harness-failed", "the paired runs failed (crash of the server under test?): " + out[-1500:], dict(log=out[-3000:]), found_input=False)
+        return p
+    info = json.load(open(os.path.join(d, "c15.json")))
+    hist = json.load(open(os.path.join(d, "histories.json")))
+    p.evaluations = info["client_steps"] + info["jobs_spliced"] + info["drain_pulls"]
+    p.nontrivial = info["jobs_effective"]
+    p.traces = info["pairs"]
+    p.samples = info["samples"][:1]
+    p.info = {k: info[k] for k in ("pairs", "client_steps", "jobs_spliced", "jobs_effective", "jobs_failed", "job_kinds_effective", "op_kinds",
+                                   "pulls_compared", "pulled_messages_compared", "drain_pulls", "converge_runs", "converge_rounds_total",
+                                   "converge_rows_reclaimed", "converge_transient_job_errors", "skipped_steps")}
+    seen = set()
+    for v in info.get("divergences") or []:
+        key = "%s:%s" % (v["class"], v["kind"])
+        if key in seen:
+            continue
+        seen.add(key)
+        p.violation(key, "pair %d (seed %s), client step %d (%s): with prune jobs spliced in, %s" % (v["pair"], v["seed"], v["step"], v["kind"], v["detail"]),
+                    dict(kind="c15-pair", divergence=v))
+    outs = coq_eval(sorted(glob.glob(os.path.join(d, "cases_*.v"))))
+    for f, (rc, out) in sorted(outs.items()):
+        if rc != 0:
+            p.violation("model-eval-failed", "cases file %s did not evaluate: %s" % (os.path.basename(f), out[-600:]), dict(log=out[-2000:]), found_input=False)
+            continue
+        for m in re.finditer(r"v(\d+) =\s*(\[.*?\])\s*:\s*list", out, re.S):
+            hi = int(m.group(1))
+            for si in re.findall(r"(\d+)%nat", m.group(2)):
+                st = hist[hi]["steps"][int(si)]
+                key = "prune-visible:" + st["op"]["Job"]
+                if key not in seen:
+                    seen.add(key)
+                    p.violation(key, "run B of pair %d, step %s: the committed job %s (age %s, max %s, rows %s) changed the client-visible view of the database" %
+                                (hi, si, st["op"]["Job"], st["op"]["MinAge"], st["op"]["MaxN"], st["op"]["Chosen"]),
+                                dict(kind="c15-monitor", pair=hi, step=int(si), failing_step=st, coq_case=_extract_case(f, hi)))
+        for m in re.finditer(r"r(\d+) =\s*(\[.*?\])\s*:\s*list", out, re.S):
+            hi, body = int(m.group(1)), m.group(2)
+            for sm in MM.finditer(body):
+                si = int(sm.group(1))
+                st = hist[hi]["steps"][si]
+                if st["kind"] != "Job" or not st["op"]["Job"].startswith("Prune"):
+                    continue
+                key = "Job:%s:%s" % (st["op"]["Job"], "+".join(sorted(set(re.findall(r"M[A-Z][a-z]+", sm.group(2))))))
+                if key not in seen:
+                    seen.add(key)
+                    p.violation(key, "run B of pair %d, step %d (%s): implementation and model disagree: %s" % (hi, si, st["op"]["Job"], re.sub(r"\s+", " ", sm.group(2))),
+                                dict(kind="c15-step", pair=hi, step=si, failing_step=st, mismatch=sm.group(2), coq_case=_extract_case(f, hi)))
+    return p
+
+
+def claim_c15(kind, mm):
+    return kind.startswith("Job:Prune")
 
 
 DELIVERY_OPS = ("Publish", "Pull", "Ack", "ModAck", "StreamAckNack", "Job", "DeleteSub", "SeekTime", "SeekSnap")
@@ -597,6 +663,22 @@ CHECKS = {
              "one factor at a time plus all pairs of the numeric/nested CreateSubscription factors; outcome PANIC = process exit; error answers must leave the dump unchanged",
         trusted=["panics originating in libraries for inputs outside the enumerated domains are not covered"],
         assumptions=["partial: the handler model covers the validation logic; the enumeration is pairwise, not the full cross product"]),
+    "C15": dict(
+        props=["C15"],
+        parts=[part_c15_meta, engine_part("prune", 32, 600, 45, claim_c15,
+                                          ["job_effective:PruneCompletedDeliveries", "job_effective:PruneExpiredDeliveries", "job_effective:PruneCompletedMessages",
+                                           "job_effective:PruneDeletedSubDeliveries", "job_effective:PruneDeletedSubs", "job_effective:PruneDeletedTopics"])],
+        rule="(1) metamorphic pairs on the real code: the same generated client history (publish / pull / ack / nack / modack / purge-seek / snapshots / deletes / expiry and dead-letter sweeps / "
+             "clock jumps to deadline -/+ margin / get / list) is run on two fresh databases, once alone and once with the six prune jobs spliced in before random client steps (up to 3 per position, "
+             "ages 0 / 1 s / 30 s / 1 h, batch 1 / 2 / 3 / 100); responses are compared step by step under the identity mapping of messages and deliveries, as are the outstanding backlog and the live names "
+             "after every step, then both runs are drained twice; (2) run B is written as Coq cases: every step against the model and the executable monitor View.check_prune_steps (proved quiet on the model) "
+             "on every committed job step; (3) convergence: everything is made dead (three variants), the clock jumps 8 days, rounds of the six jobs in random order with random batches must reach a fixpoint "
+             "within (rows+5) rounds with no dead row left; (4) engine profile prune (22% jobs, all seeks) with the same monitor; non-trivial = job runs that removed rows",
+        assumptions=BUS_ASSUME + ["backward seeks are excluded from the paired histories (README: a seek does not resurrect what was permanently deleted); they are covered by the engine part step-locally",
+                                  "snapshots of an already deleted topic disappear when the topic is pruned (not among the things the property lists); the comparison ignores them",
+                                  "the expiry sweep and the dead-letter sweep are client-visible by design and belong to the client history of both runs",
+                                  "client-visible trace equality over all histories is checked metamorphically, not proved; proved are single-step invisibility of the view (incl. blockedness), "
+                                  "removal of dead rows only, and convergence"]),
     "C03": dict(
         props=["C03"],
         parts=[engine_part("delivery", 32, 600, 45, claim_c03, ["ack_effective", "ack_noop", "modack_effective", "nack_rescheduled"])],
